@@ -11,9 +11,16 @@ EXTENDS Integers, Sequences, FiniteSets, TLC
 Add1c(a, w) == LET t == a + w IN IF t > 65535 THEN t - 65535 ELSE t        \* end-around carry
 Word(b, i) == b[i] * 256 + (IF i + 1 <= Len(b) THEN b[i + 1] ELSE 0)       \* big endian word at 1-based i, odd tail padded with 0
 
-RECURSIVE SumFrom(_, _, _)
-SumFrom(acc, b, i) == IF i > Len(b) THEN acc ELSE SumFrom(Add1c(acc, Word(b, i)), b, i + 2)
-Sum(acc, b) == SumFrom(acc, b, 1)              \* the action "add these bytes" (pads an odd tail)
+\* one's complement addition is associative and commutative (RFC 1071 section 2 (A)), so the words between the 1-based byte
+\* positions lo (odd) and hi are summed as a balanced tree: recursion depth log2(n), 128 kB messages stay within the JVM stack
+RECURSIVE SumRange(_, _, _)
+SumRange(b, lo, hi) ==
+  IF hi <= lo THEN 0
+  ELSE IF hi - lo <= 2 THEN Word(b, lo)
+  ELSE LET words == (hi - lo + 1) \div 2
+           mid == lo + 2 * (words \div 2) IN
+       Add1c(SumRange(b, lo, mid), SumRange(b, mid, hi))
+Sum(acc, b) == Add1c(acc, SumRange(b, 1, Len(b) + 1))              \* the action "add these bytes" (pads an odd tail)
 Fold1071(b) == Sum(0, b)
 Finish(acc) == 65535 - acc                      \* one's complement of the sum: the checksum field
 NoZero(c) == IF c = 0 THEN 65535 ELSE c         \* UDP: a computed 0 is transmitted as all ones
